@@ -196,6 +196,12 @@ func init() {
 			{Name: "mod-thresholds-raise", Sc: scMod(paramSet("0.1", "0.001"), []Template{tMod1}, AlphaOpts{RespKinds: []string{"ok"}, ModUpdates: []CtxUpdate{{Name: "thr2", Threshold: 2}}, BindOps: []Action{actDisable("a", "P2", "O2"), actEnable("a", "P2", "O2", 0)}}, d, b, m), Oracles: o},
 		}
 		runs = append(runs, priceFractionsRun(o, MonFlags{}, d-1, b, m), tightBalanceRun(o, d, b, m))
+		// the owning module lowers the fee cap of its other contexts from inside the state callback of one that cannot pay (both processing orders)
+		for _, fl := range []bool{false, true} {
+			sc := scModCapSiblings(defaultParams(), []Template{tModPoor, tMod1, tMod2}, AlphaOpts{RespKinds: []string{"ok"}, ModOps: []string{"mpause", "mstart"}}, d-1, b-1, m)
+			sc.FlipIDs = fl
+			runs = append(runs, RunSpec{Name: fmt.Sprintf("mod-cap-siblings-in-callback(flip=%v)", fl), Sc: sc, Oracles: o})
+		}
 		{
 			// governance raises the minimum deposit above the existing deposits: eligibility does not depend on it
 			g := defaultParams()
@@ -216,6 +222,7 @@ func init() {
 		runs = append(runs, RunSpec{Name: "two-services-one-provider", Sc: scTwoServices(paramSet("0.1", "0.001"), AlphaOpts{RespKinds: []string{"ok"}, BindOps: []Action{actUpdate("ab", "P1", "O1", 0, "p3vv", 0), actUpdate("a", "P1", "O1", 0, "p1t", 0)}}, d, b, m), Oracles: o, Mon: MonFlags{Vol: true}})
 		runs = append(runs, RunSpec{Name: "huge-values", Sc: scHuge(paramSet("0.1", "0.001"), d-2, b-1, 2), Oracles: o, Mon: MonFlags{Vol: true}})
 		runs = append(runs, priceFractionsRun(o, MonFlags{Vol: true}, d-1, b, m))
+		runs = append(runs, priceUpdateRejectedRun(o, MonFlags{Vol: true}, d-1, b, m))
 		runs = append(runs, runsOf(lifeRuns(tier), o, MonFlags{Vol: true})...)
 		return runs
 	}, Pure: priceGrid})
@@ -498,6 +505,7 @@ func init() {
 			RunSpec{Name: "names-panics", Sc: scNames(defaultParams(), 6+d, 3, 4), Oracles: o, DetCheck: true},
 			RunSpec{Name: "huge-values", Sc: scHuge(defaultParams(), 6+d, 4, 2), Oracles: o, DetCheck: true},
 			func() RunSpec { r := priceFractionsRun(o, MonFlags{}, 7+d, 4, 2); r.DetCheck = true; return r }(),
+			func() RunSpec { r := priceUpdateRejectedRun(o, MonFlags{}, 6+d, 4, 2); r.DetCheck = true; return r }(),
 			// a module that re-asks from inside its response callback (also when that callback runs at end of block)
 			func() RunSpec {
 				sc := scMod(defaultParams(), []Template{tMod1, tMod2}, AlphaOpts{RespKinds: []string{"ok", "bad"}}, 6+d, 4, 2)
@@ -586,4 +594,14 @@ func fxBases(tier string) []base {
 			return scFX(paramSet("0.1", "0.001"), "fusd1v", []Template{tFxRep, tFxMix}, fxO, fxSpec(H0+2), d, b, m)
 		}},
 	}
+}
+
+// priceUpdateRejectedRun: price updates that pass every check on the pricing itself and are then refused for the
+// deposit (20 x 2 > 10), next to accepted ones; calls within a cap that admits the refused price.
+func priceUpdateRejectedRun(o []Oracle, mon MonFlags, d, b, m int) RunSpec {
+	sc := scBind(paramSet("0.1", "0.001"), []Action{actUpdate("a", "P1", "O1", 0, "p20", 0), actUpdate("a", "P1", "O1", 0, "p5", 0), actUpdate("a", "P1", "O1", 30, "p20", 0),
+		actDisable("a", "P1", "O1"), actEnable("a", "P1", "O1", 0)}, []Template{tSlash, tSlash2}, []string{"ok"}, d, b, m)
+	sc.Name = "S-BIND(refused price updates)"
+	sc.Setup = append(sc.Setup, actBind("a", "P1", "O1", 10, "p1", 1), actBind("a", "P2", "O2", 10, "p1", 1))
+	return RunSpec{Name: "price-update-refused", Sc: sc, Oracles: o, Mon: mon}
 }
